@@ -158,7 +158,8 @@ class Symex:
     """
 
     def __init__(self, model, inline=None, hooks=None, unroll=2, max_paths=512, max_steps=200000, what="?",
-                 assume_asserts=True, isinstance_hook=None, attr_hook=None, max_depth=12, cut_loops=False):
+                 assume_asserts=True, isinstance_hook=None, attr_hook=None, max_depth=12, cut_loops=False,
+                 obj_identity=False):
         self.model = model
         self.inline = inline or (lambda q: False)
         self.hooks = dict(hooks or {})
@@ -171,6 +172,9 @@ class Symex:
         self.attr_hook = attr_hook
         self.max_depth = max_depth
         self.cut_loops = cut_loops
+        # obj_identity: abstract records (Obj) are concrete individuals - ``is``/``==``/``in`` between a record and
+        # another record, None or a plain value are decided by identity instead of becoming symbolic atoms
+        self.obj_identity = obj_identity
         self._modconst = {}
         self.fresh_n = 0
         self.on_start = None
@@ -393,7 +397,11 @@ class Symex:
                     k = self.ev(t.slice)
                     try:
                         del obj[k]
-                    except (KeyError, IndexError, TypeError):
+                    except (KeyError, IndexError):
+                        if isinstance(obj, (dict, list)) and not isinstance(k, T):
+                            raise Raised("KeyError" if isinstance(obj, dict) else "IndexError", None, s)
+                        self.unsupported(s, "del of a missing key")
+                    except TypeError:
                         self.unsupported(s, "del of a missing key")
                 elif isinstance(t, ast.Name):
                     self.frames[-1].pop(t.id, None)
@@ -415,7 +423,9 @@ class Symex:
                 if it.optional_vars is not None:
                     self.assign(it.optional_vars, v)
             self.block(s.body)
-        elif isinstance(s, (ast.Global, ast.Nonlocal)):
+        elif isinstance(s, ast.Nonlocal):
+            self.frames[-1].setdefault("$nonlocal", set()).update(s.names)
+        elif isinstance(s, ast.Global):
             self.unsupported(s)
         else:
             self.unsupported(s)
@@ -498,6 +508,11 @@ class Symex:
 
     def assign(self, t, v):
         if isinstance(t, ast.Name):
+            if t.id in self.frames[-1].get("$nonlocal", ()):
+                for fr in reversed(self.frames[:-1]):       # nonlocal: rebind in the defining scope
+                    if t.id in fr:
+                        fr[t.id] = v
+                        return
             self.frames[-1][t.id] = v
         elif isinstance(t, (ast.Tuple, ast.List)):
             star = [i for i, e in enumerate(t.elts) if isinstance(e, ast.Starred)]
@@ -667,6 +682,15 @@ class Symex:
             self.unsupported(node, f"arithmetic on {type(a).__name__}, {type(b).__name__}")
 
     def compare(self, opname, a, b, node):
+        if self.obj_identity and opname in ("is", "is not", "==", "!=") and (isinstance(a, Obj) or isinstance(b, Obj)) \
+                and all(isinstance(x, Obj) or _plain(x) for x in (a, b)):
+            return (a is b) if opname in ("is", "==") else (a is not b)
+        if self.obj_identity and opname in ("in", "not in") and isinstance(a, Obj) \
+                and isinstance(b, (list, tuple, set, frozenset, dict)) and all(isinstance(e, Obj) or _plain(e) for e in b):
+            return any(e is a for e in b) == (opname == "in")
+        if isinstance(a, Ext) and isinstance(b, Ext) and opname in ("is", "is not", "==", "!=") \
+                and a.name in _TYPE_NAMES and b.name in _TYPE_NAMES:
+            return (a.name == b.name) == (opname in ("is", "=="))       # type(x) is str
         if isinstance(a, Ext):
             a = sym(a.name)
         if isinstance(b, Ext):
@@ -710,6 +734,9 @@ class Symex:
             self.unsupported(node, "comparison of unsupported values")
 
     def contains(self, coll, x, node):
+        if self.obj_identity and isinstance(x, Obj) and isinstance(coll, (list, tuple, set, frozenset, dict)) \
+                and all(isinstance(e, Obj) or _plain(e) for e in coll):
+            return any(e is x for e in coll)
         if isinstance(coll, Obj):
             coll = coll.term
         if isinstance(x, Obj):
@@ -839,6 +866,9 @@ class Symex:
             self.unsupported(n, "starred outside call")
         if isinstance(n, ast.Yield):
             self.frames[-1].setdefault("$yield", []).append(self.ev(n.value) if n.value is not None else None)
+            return None
+        if isinstance(n, ast.YieldFrom):
+            self.frames[-1].setdefault("$yield", []).extend(self.iterate(self.ev(n.value), n))
             return None
         if isinstance(n, ast.Slice):
             return slice(self.ev(n.lower) if n.lower else None, self.ev(n.upper) if n.upper else None,
@@ -1229,7 +1259,9 @@ class Symex:
                     a = [f.bound] + a
                 frame = self.bind(fn, a, kw)
             self.frames, self.module = list(f.frames) + [frame], f.module
-            is_gen = any(isinstance(x, (ast.Yield, ast.YieldFrom)) for x in _walk_noscope(fn))
+            is_gen = getattr(fn, "_sx_is_gen", None)
+            if is_gen is None:      # cached on the node: the walk dominated concrete evaluations
+                is_gen = fn._sx_is_gen = any(isinstance(x, (ast.Yield, ast.YieldFrom)) for x in _walk_noscope(fn))
             try:
                 self.block(fn.body)
                 r = None
@@ -1304,6 +1336,20 @@ class Symex:
         if name in ("factorial", "math.factorial") and len(args) == 1 and isinstance(args[0], int):
             import math
             return math.factorial(args[0])
+        if name in ("re.findall", "re.split", "re.sub", "re.fullmatch", "re.match") and all(isinstance(a, (str, int)) for a in args) \
+                and not kw:
+            import re as _re
+            r = getattr(_re, short)(*args)
+            if short in ("fullmatch", "match"):     # only the truth value / the matched text of a match object
+                return None if r is None else r.group(0)
+            return r
+        if name == "next" and args and isinstance(args[0], list) and not kw:
+            # generators are materialised as lists that nothing else refers to: next() consumes the front
+            if args[0]:
+                return args[0].pop(0)
+            if len(args) > 1:
+                return args[1]
+            raise Raised("StopIteration", None, node)
         if name == "Counter" and len(args) <= 1 and not any(_has_sym(a) for a in args):
             c = {}
             for x in (self.iterate(args[0], node) if args else []):
@@ -1602,6 +1648,7 @@ _BIN = {ast.Add: operator.add, ast.Sub: operator.sub, ast.Mult: operator.mul, as
         ast.BitXor: operator.xor, ast.LShift: operator.lshift, ast.RShift: operator.rshift}
 
 _BUILTIN_CONST = {"True": True, "False": False, "None": None}
+_TYPE_NAMES = {"int", "str", "list", "tuple", "dict", "set", "float", "bool", "frozenset", "NoneType"}
 
 _BUILTINS = {
     "len": len, "range": range, "int": int, "str": str, "abs": abs, "sum": sum, "list": list, "tuple": tuple,
